@@ -193,3 +193,27 @@ EXTRA6 = {
 for _pid, _x in EXTRA6.items():
     if _pid in CLAIMED:
         CLAIMED[_pid]["text"] += _x
+
+EXTRA7 = {
+ "C01": " Round 7: 'failed condition' is an error class of its own - no package-level error variable wraps another (R9).",
+ "C02": " Round 7: the sequencer commits the revision of the slot it consumed (C04-R3 into R3); the etcd translation hands the backend's header on (C16-R9) and a scan returns each value with the revision of that version (C03-R8), both under R4.",
+ "C03": " Round 7: a returned key-value is one stored record (R8); the revision an answer names is the one its data was read at (R7 <- C16-R9, C06-R2); every partition is scanned by one worker with its own configuration (C13-R3 into R4).",
+ "C04": " Round 7: no request leaves a lock of the pipeline held behind (lock pairing, C19-R5 into R6).",
+ "C05": " Round 7: the forwarder filters every batch with the revision it was started with (R13).",
+ "C06": " Round 7: the live stream resumes exactly after the replayed events (C05-R1 into R7); C13-R3 into R4.",
+ "C07": " Round 7: write paths recognise 'the record is gone' on the error of the step that reported it (R10 <- C09-R9).",
+ "C09": " Round 7: no classification test looks at an error already classified otherwise by an enclosing branch; error classes are disjoint (R9).",
+ "C10": " Round 7: range bounds built by the range-style entry points are index keys (R7).",
+ "C11": " Round 7: Commit of the in-process engine applies every staged operation (R14); its ttl timer is a compare-and-delete (R15; found and fixed b46edb1); adapters report a done context as an error (R11); nothing but the ttl operand decides an entry's expiry (R10).",
+ "C12": " Round 7: the snapshot timestamp handed to an engine iterator is 0 or a value of the oracle, never a revision (R7); C11-R14 added to R0.",
+ "C13": " Round 7: no variable captured by the scan workers is written once a worker may run (R3); a streamed batch is not refilled after it was sent (R10 <- C05-R9).",
+ "C15": " Round 7: the in-process engine's oracle is the wall clock (R7); C04-R3 reaches R4 through C02-R3.",
+ "C16": " Round 7: shim headers carry the backend's header revision, List's header and read revision come from one load (R9); a key-value of the failure branch needs the re-read's error found nil (R5).",
+ "C17": " Round 7: index record and version record of one write carry the same TTL (R9); C11-R15 into R8.",
+ "C18": " Round 7: one holder of the lock (C14-R2/R3/R6 as R7); R5 made exact after fix f4216ff neutralised four seeds (an undecodable constant body is accepted on the non-leader branch).",
+ "C19": " Round 7: lock pairing - every acquisition is released on every return (R5); accesses to an object allocated in the same function are exempt only until it has been handed to a goroutine (R1).",
+ "C20": " Round 7: no nil element in a repeated message field of an answer (R10); lock pairing into R7.",
+}
+for _pid, _x in EXTRA7.items():
+    if _pid in CLAIMED:
+        CLAIMED[_pid]["text"] += _x
